@@ -217,9 +217,15 @@ dataLoop:
 				extraPledge := newPledge.Sub(shard.Pledge)
 				spBalance := k.bank.GetBalance(ctx, spAcc, denom)
 				if spBalance.IsGTE(extraPledge) {
-					k.bank.SendCoinsFromAccountToModule(ctx, spAcc, nodetypes.ModuleName, sdk.Coins{extraPledge})
+					err = k.bank.SendCoinsFromAccountToModule(ctx, spAcc, nodetypes.ModuleName, sdk.Coins{extraPledge})
+					if err != nil {
+						return nil, err
+					}
 				} else {
-					k.bank.SendCoinsFromAccountToModule(ctx, spAcc, nodetypes.ModuleName, sdk.Coins{spBalance})
+					err = k.bank.SendCoinsFromAccountToModule(ctx, spAcc, nodetypes.ModuleName, sdk.Coins{spBalance})
+					if err != nil {
+						return nil, err
+					}
 					debt := extraPledge.Sub(spBalance)
 					pledgeDebt, found := k.node.GetPledgeDebt(ctx, shard.Sp)
 					if !found {
